@@ -13,7 +13,8 @@ pub enum Dev {
     /// replace the scalar at position `pos` by bad scalar #`bad`
     BadScalar { pos: usize, bad: usize },
     Truncate(usize),
-    Extend(u8),
+    /// append `n` bytes of value `b`
+    Extend(u8, usize),
     /// JSON only: the hex string of point `pos` made short / long / odd / non-hex
     JsonHex { pos: usize, kind: u8 },
     /// JSON only: the hex string of point `pos` := the first `bytes` bytes of the point (`identity` false) or of
@@ -240,8 +241,16 @@ impl Model for M16 {
             for l in 0..enc.len() {
                 a.push(Dev::Truncate(l));
             }
-            a.push(Dev::Extend(0));
-            a.push(Dev::Extend(0xFF));
+            a.push(Dev::Extend(0, 1));
+            a.push(Dev::Extend(0xFF, 1));
+            if e.fixed() && !matches!(st.codec, Codec::Json | Codec::Bare) {
+                // exact-length types: every other length up to the size of the largest encoding and a bit more,
+                // filled with zeros and with a copy of the valid encoding's own bytes
+                for n in 2..=100usize {
+                    a.push(Dev::Extend(0, n));
+                    a.push(Dev::Extend(1, n));
+                }
+            }
         }
         a
     }
@@ -346,8 +355,11 @@ impl Model for M16 {
                 cls = "truncated".into();
                 must_reject = true;
             }
-            Some(Dev::Extend(b)) => {
-                input.push(*b);
+            Some(Dev::Extend(b, n)) => {
+                for i in 0..*n {
+                    // b == 1: repeat the encoding's own bytes (so an appended valid point is tried too)
+                    input.push(if *b == 1 { enc[i % enc.len()] } else { *b });
+                }
                 cls = "extended".into();
                 // trailing bytes after a complete serde_bare / JSON document are the format crate's business
                 // (a Deserialize impl never sees the end of input): judged for the library's own byte imports only
@@ -389,7 +401,7 @@ impl Model for M16 {
             o.expect(&key, false, "Err", "decoded");
             return;
         }
-        if matches!(st.dev, Some(Dev::Extend(_))) {
+        if matches!(st.dev, Some(Dev::Extend(..))) {
             o.outcome("extended:accepted-by-variable-length-type");
             o.note(format!("{} via {:?} accepts one trailing byte", tn, c));
             return;
